@@ -95,3 +95,37 @@ Definition sg_run (handler : list gact) (o : sg_outcome) (raw : bool) (st : xsta
       | (st', None) => (st', XReturn)       (* the handler falls off its end: execute() returns normally *)
       end
   end.
+
+(* ---------- the transfer set-up of ISCSIDevice.execute (REGENERATED into Gen/Misc.v: iscsi_xfer_prog) ---------- *)
+Inductive xstep :=
+| XSetDir (d : string)                              (* dir = iscsi.<d> *)
+| XSetLen0                                          (* xferlen = 0 *)
+| XIfLen (buf d lenbuf : string)                    (* if len(cmd.<buf>): dir = iscsi.<d>; xferlen = len(cmd.<lenbuf>) *)
+| XTask (args : list string)                        (* task = iscsi.Task(<args>) *)
+| XCommand (args : list string)                     (* self._iscsi.command(<args>) *)
+| XUnknownStep (src : string).
+
+Definition buf_len (lo li : N) (buf : string) : option N :=
+  if String.eqb buf "dataout" then Some lo else if String.eqb buf "datain" then Some li else None.
+
+Fixpoint str_list_eqb (a b : list string) : bool :=
+  match a, b with [] , [] => true | x :: a', y :: b' => String.eqb x y && str_list_eqb a' b' | _, _ => false end.
+
+(* direction name and expected transfer length handed to the binding, given len(cmd.dataout) and len(cmd.datain);
+   None: a step outside the recognised shapes, or Task / command not called with (cdb, dir, xferlen) / (lun, task, dataout, datain) *)
+Fixpoint run_xfer (dirv lenv : string) (prog : list xstep) (lo li : N) (st : string * N) : option (string * N) :=
+  match prog with
+  | [] => Some st
+  | XSetDir d :: rest => run_xfer dirv lenv rest lo li (d, snd st)
+  | XSetLen0 :: rest => run_xfer dirv lenv rest lo li (fst st, 0%N)
+  | XIfLen buf d lb :: rest =>
+      match buf_len lo li buf, buf_len lo li lb with
+      | Some n, Some m => run_xfer dirv lenv rest lo li (if N.eqb n 0 then st else (d, m))
+      | _, _ => None
+      end
+  | XTask args :: rest =>
+      if str_list_eqb args ["cmd.cdb"; dirv; lenv] then run_xfer dirv lenv rest lo li st else None
+  | XCommand args :: rest =>
+      if str_list_eqb args ["self._iscsi_url.lun"; "task"; "cmd.dataout"; "cmd.datain"] then run_xfer dirv lenv rest lo li st else None
+  | XUnknownStep _ :: _ => None
+  end.
